@@ -74,14 +74,14 @@ PLAN["C06"] = {
     "level_text": ("Exploration with exhaustive sub-spaces: complete enumeration over 19 small prime fields and byte-aligned widths <= 16 in the test engine, complete "
                    "enumeration of prover answers on the compiled 47-element-field system, all 256 first-difference positions on the compiled BN254 system; sampled elsewhere."),
     "level_note": "exhaustiveness holds for the finite sub-spaces named in the rule only; other widths/fields are sampled; gnark's test engine and solver are trusted",
-    "quick": [{"test": "TestC06_Enum", "n": {"PRIMES16": 4, "PRIMESV": 17}, "rapid": False, "timeout": 600},
-              {"test": "TestC06_Tiny", "rapid": False, "timeout": 300},
-              {"test": "TestC06_Positions", "rapid": False, "timeout": 300},
-              {"test": "TestC06_Rapid", "checks": 30000, "timeout": 600}],
-    "thorough": [{"test": "TestC06_Enum", "n": {"PRIMES16": 19, "PRIMESV": 19}, "shards": 16, "rapid": False, "timeout": 1800},
-                 {"test": "TestC06_Tiny", "rapid": False, "timeout": 300},
-                 {"test": "TestC06_Positions", "rapid": False, "timeout": 300},
-                 {"test": "TestC06_Rapid", "checks": 60000, "shards": 8, "timeout": 1800}],
+    "quick": [{"test": "TestC06_Enum", "needs": ["g_bits"], "n": {"PRIMES16": 4, "PRIMESV": 17}, "rapid": False, "timeout": 600},
+              {"test": "TestC06_Tiny", "needs": ["g_bits"], "rapid": False, "timeout": 300},
+              {"test": "TestC06_Positions", "needs": ["g_bits"], "rapid": False, "timeout": 300},
+              {"test": "TestC06_Rapid", "needs": ["g_bits"], "checks": 30000, "timeout": 600}],
+    "thorough": [{"test": "TestC06_Enum", "needs": ["g_bits"], "n": {"PRIMES16": 19, "PRIMESV": 19}, "shards": 16, "rapid": False, "timeout": 1800},
+                 {"test": "TestC06_Tiny", "needs": ["g_bits"], "rapid": False, "timeout": 300},
+                 {"test": "TestC06_Positions", "needs": ["g_bits"], "rapid": False, "timeout": 300},
+                 {"test": "TestC06_Rapid", "needs": ["g_bits"], "checks": 60000, "shards": 8, "timeout": 1800}],
 }
 
 PLAN["C05"] = {
@@ -94,8 +94,8 @@ PLAN["C05"] = {
     "technique": "differential property testing against iden3 Poseidon (reference constants), positive and negative outputs",
     "level_text": "Exploration: tens of thousands of generated inputs per run compared with an independent implementation; both acceptance of the reference output and rejection of perturbed outputs are checked.",
     "level_note": "iden3's Poseidon (self-checked against two published circomlib vectors at start-up) is the trusted definition of the reference hash",
-    "quick": [{"test": "TestC05_Poseidon", "checks": 20000, "timeout": 600}],
-    "thorough": [{"test": "TestC05_Poseidon", "checks": 50000, "shards": 16, "timeout": 1500}],
+    "quick": [{"test": "TestC05_Poseidon", "needs": ["g_poseidon"], "checks": 20000, "timeout": 600}],
+    "thorough": [{"test": "TestC05_Poseidon", "needs": ["g_poseidon"], "checks": 50000, "shards": 16, "timeout": 1500}],
 }
 
 PLAN["C04"] = {
@@ -111,10 +111,10 @@ PLAN["C04"] = {
     "technique": "differential property testing against golang.org/x/crypto/sha3 (positive and negative digests), exhaustive over lengths in the thorough tier",
     "level_text": "Exploration; thorough tier is exhaustive over message lengths 0..552 for both domains (contents sampled). Compiled-system coverage at 7-12 lengths, other lengths in the test engine.",
     "level_note": "x/crypto's LegacyKeccak256 and New256 are the trusted standard functions; only byte-aligned messages are in the domain (the property's)",
-    "quick": [{"test": "TestC04_Lengths", "rapid": False, "shards": 4, "timeout": 900},
-              {"test": "TestC04_Rapid", "checks": 150, "shards": 4, "timeout": 900}],
-    "thorough": [{"test": "TestC04_Lengths", "rapid": False, "shards": 16, "timeout": 2400},
-                 {"test": "TestC04_Rapid", "checks": 500, "shards": 16, "timeout": 2400}],
+    "quick": [{"test": "TestC04_Lengths", "needs": ["g_keccak"], "rapid": False, "shards": 4, "timeout": 900},
+              {"test": "TestC04_Rapid", "needs": ["g_keccak"], "checks": 150, "shards": 4, "timeout": 900}],
+    "thorough": [{"test": "TestC04_Lengths", "needs": ["g_keccak"], "rapid": False, "shards": 16, "timeout": 2400},
+                 {"test": "TestC04_Rapid", "needs": ["g_keccak"], "checks": 500, "shards": 16, "timeout": 2400}],
 }
 
 PLAN["C01"] = {
@@ -137,10 +137,10 @@ PLAN["C01"] = {
     "level_note": "dishonest-prover coverage only at the compiled dimensions; other dimensions honest engine only; gnark's compiler/solver trusted as deployed semantics",
     "quick": [{"test": "TestC01_E1", "checks": 120, "shards": 6, "timeout": 900},
               {"test": "TestC01_E2", "checks": 250, "shards": 4, "timeout": 900},
-              {"test": "TestC01_TinyE1", "rapid": False, "shards": 2, "timeout": 600}],
+              {"test": "TestC01_TinyE1", "needs": ["g_merkle", "g_poseidon"], "rapid": False, "shards": 2, "timeout": 600}],
     "thorough": [{"test": "TestC01_E1", "checks": 1200, "shards": 12, "timeout": 3000},
                  {"test": "TestC01_E2", "checks": 1500, "shards": 8, "timeout": 3000},
-                 {"test": "TestC01_TinyE1", "rapid": False, "shards": 16, "timeout": 3000}],
+                 {"test": "TestC01_TinyE1", "needs": ["g_merkle", "g_poseidon"], "rapid": False, "shards": 16, "timeout": 3000}],
 }
 
 PLAN["C02"] = {
@@ -161,13 +161,13 @@ PLAN["C02"] = {
     "level_note": "dishonest-prover coverage on BN254 only at the compiled dimensions; exhaustive claims hold for the named finite spaces only",
     "quick": [{"test": "TestC02_E1", "checks": 120, "shards": 5, "timeout": 900},
               {"test": "TestC02_E2", "checks": 250, "shards": 4, "timeout": 900},
-              {"test": "TestC02_TinyE1", "rapid": False, "shards": 2, "timeout": 600},
-              {"test": "TestC02_TinyE2", "rapid": False, "shards": 4, "timeout": 600},
+              {"test": "TestC02_TinyE1", "needs": ["g_merkle", "g_poseidon"], "rapid": False, "shards": 2, "timeout": 600},
+              {"test": "TestC02_TinyE2", "needs": ["g_merkle", "g_poseidon"], "rapid": False, "shards": 4, "timeout": 600},
               {"test": "TestC02_DepthGuard", "rapid": False, "timeout": 300}],
     "thorough": [{"test": "TestC02_E1", "checks": 1200, "shards": 10, "timeout": 3000},
                  {"test": "TestC02_E2", "checks": 1500, "shards": 6, "timeout": 3000},
-                 {"test": "TestC02_TinyE1", "rapid": False, "shards": 16, "timeout": 3000},
-                 {"test": "TestC02_TinyE2", "rapid": False, "shards": 16, "timeout": 3000},
+                 {"test": "TestC02_TinyE1", "needs": ["g_merkle", "g_poseidon"], "rapid": False, "shards": 16, "timeout": 3000},
+                 {"test": "TestC02_TinyE2", "needs": ["g_merkle", "g_poseidon"], "rapid": False, "shards": 16, "timeout": 3000},
                  {"test": "TestC02_DepthGuard", "rapid": False, "timeout": 300}],
 }
 
@@ -288,7 +288,7 @@ PLAN["C09"] = {
              "an array replaced by a scalar (all => 400 malformed_body); well-formed documents of wrong dimensions (batch+-1, depth+-1, ragged, empty, 300 elements) and near-valid batches (every invalid class of C01/C02, wrong input hash) "
              "(=> 400 proving_error); valid batches in four number styles and with 1-4 MB of leading whitespace (=> 200 with a proof that the harness verifies against the request's input hash with gnark's verifier); GRAY documents "
              "(extra key, null array, a value + r, negative/octal/underscore literals, missing index field, 1-4 MB of zero digits) where either 400 code or a 200 with a verifying proof is accepted. Always: a complete HTTP response, "
-             "no 5xx, answer within 60 s, error bodies are {code,message}. Every sequence is non-trivial (none equals the repository's literal bodies); distinct = SHA-1 of the canonical sequence. "
+             "no 5xx, answer within 180 s, error bodies are {code,message}. Every sequence is non-trivial (none equals the repository's literal bodies); distinct = SHA-1 of the canonical sequence. "
              "Thorough adds native go fuzzing of the POST body with the same oracle reduced to: complete response, status in {200,400}, 200 => verifying proof, documented error shape."),
     "assumptions": A_COMMON + ["the expected class of each generated request is fixed by construction; where the statement is silent the oracle is three-valued (gray) and only crash/hang/5xx/unverifiable-200 can fail"],
     "technique": "grammar-based stateful property testing of the HTTP handler against a three-valued document classifier and an independent proof verifier; native fuzzing (thorough)",
